@@ -70,6 +70,8 @@ Step ==
   \/ Ev("PeerCut") /\ PeerCut(Arg(1))
   \/ Ev("PeerClose") /\ PeerClose
   \/ Ev("PeerHalfClose") /\ PeerHalfClose
+  \/ Ev("PeerWriteFail") /\ PeerWriteFail
+  \/ Ev("PeerGivesUp") /\ PeerGivesUp
   \/ Ev("Unmount") /\ Unmount
 
 Matched == Step /\ PostMatches /\ l' = l + 1 /\ UNCHANGED <<failed, case, done>>
